@@ -541,7 +541,7 @@ func runC01(res *Result, rng *RNG, tier string, outDir string) {
 	res.Rule = "token families built by random histories (build with/without root id, 0-4 appends, seal, serialize/unmarshal) and, for every token, 12-13 structural mutations of the envelope made at protobuf level (block bytes substituted from another block/token, announced key replaced, signature bit flipped, blocks swapped, removed, inserted from another token, a block appended and signed by an attacker key, proof replaced by an attacker secret / random or attacker seal / empty / wrong-length secret / another token's proof, algorithm number changed, mis-sized keys and signatures, root id changed). Oracle: an independent reference acceptor (decode with protobuf-go, check the chain with crypto/ed25519 itself): the library accepts exactly what the reference accepts; every library-built token verifies. Non-trivial = a mutated envelope that differs from every unmutated token of the family; distinct by token bytes."
 	nfam := 5
 	if tier == "thorough" {
-		nfam = 40
+		nfam = 110
 	}
 	sh := newChainShards(outDir, "C01", 2)
 	rng2 := rng
@@ -703,7 +703,7 @@ func runC16(res *Result, rng *RNG, tier string, outDir string) {
 	res.Rule = "token families with root key ids {absent, 0, 1, 7, 2^31, 2^32-1, random}: RootKeyID() of every token of the family after every derivation (append, seal, serialize/unmarshal) must equal the id given at creation; key lookup through WithRootPublicKeys with key maps {right id -> right key, right id -> wrong key, only other ids, nil/empty key under the right id} x default {absent, right key, wrong key} and through WithSingularRootPublicKey: the outcome must be that of verifying under exactly the key registered for the token's id (default when the token has none), ErrNoPublicKeyAvailable when there is none. Non-trivial = a derived token (not the root build) or a map lookup with a decoy key; distinct by (token bytes, key source)."
 	nfam := 9
 	if tier == "thorough" {
-		nfam = 100
+		nfam = 280
 	}
 	sh := newChainShards(outDir, "C16", 3)
 	// ONE key source value serves every verification of the run (an application keeps one
@@ -852,7 +852,7 @@ func runC17(res *Result, rng *RNG, tier string, outDir string) {
 	res.Rule = "token families with deliberately identical block contents on the same and on different tokens (fresh randomness per operation): after every derivation the revocation ids are compared with the block signatures found by an independent decode of the serialized token (protobuf-go), with the parent's ids (prefix), with the block count, and for uniqueness across all signing events of the family. Non-trivial = a derived token; distinct by token bytes."
 	nfam := 20
 	if tier == "thorough" {
-		nfam = 250
+		nfam = 600
 	}
 	var rcases, rdescs []string
 	for fi := 0; fi < nfam; fi++ {
@@ -929,10 +929,7 @@ func runC17(res *Result, rng *RNG, tier string, outDir string) {
 			rdescs = append(rdescs, "revocation ids after "+t.Op)
 		}
 	}
-	cf := NewCasesFile("Base Chain Corr")
-	cf.Raw("Definition rcases : list (container * list bytes) := [\n  " + joinLines(rcases) + "].\n")
-	cf.Raw("Definition M := Eval vm_compute in mismatches (fun c => list_eqb bytes_eqb (revocation_ids (fst c)) (snd c)) rcases.\nPrint M.\n")
-	cf.WriteTo(outDir, "Cases_C17.v")
+	WriteShards(res, outDir, "C17", "Base Chain Corr", "", "(container * list bytes)", "fun c => list_eqb bytes_eqb (revocation_ids (fst c)) (snd c)", rcases, 300)
 	res.ModelCases = len(rcases)
 	res.CaseDescs = rdescs
 }
@@ -1006,7 +1003,7 @@ func runC09(res *Result, rng *RNG, tier string, outDir string) {
 	res.Rule = "sealed/unsealed twins from random histories x a panel of authorizer contents: the sealed token must verify under the same root key, give the same verdict for every authorizer of the panel, keep the same revocation ids and root key id, refuse Append and Seal with an error, and all of this again after serialize/unmarshal; sealed envelopes with the seal signature, the last block or the last announced key altered must be rejected. Non-trivial = a twin pair with at least one appended block or a mutated sealed envelope; distinct by token bytes."
 	nfam := 40
 	if tier == "thorough" {
-		nfam = 250
+		nfam = 600
 	}
 	sh := newChainShards(outDir, "C09", 8)
 	for fi := 0; fi < nfam; fi++ {
